@@ -2740,7 +2740,7 @@ def c20(tier):
         def keepalive(cid):
             rr = common.rng("C20/keep/%d" % cid)
             out = []
-            conn = _hc.HTTPConnection("127.0.0.1", srv.port, timeout=30)
+            conn = _hc.HTTPConnection("127.0.0.1", srv.port, timeout=120)
             for k in range(12 if tier == "quick" else 80):
                 kind = rr.choice(["get", "post_ok", "post_ok", "post_badutf8", "other_path"])
                 want = ""
@@ -2763,7 +2763,7 @@ def c20(tier):
                         break
                     except (OSError, _hc.HTTPException):
                         conn.close()
-                        conn = _hc.HTTPConnection("127.0.0.1", srv.port, timeout=30)
+                        conn = _hc.HTTPConnection("127.0.0.1", srv.port, timeout=120)
                 out.append({"client": cid, "seq": 4000 + k, "class": kind, "status": st, "body_sha": shells.sha(data), "want_sha": want})
             conn.close()
             return out
@@ -2786,10 +2786,10 @@ def c20(tier):
         def during(cid):
             out = []
             for k in range(3):
-                st, body = shells.http_request(srv.port, "GET", "/", timeout=20)
+                st, body = shells.http_request(srv.port, "GET", "/", timeout=90)
                 out.append({"client": cid, "seq": 3000 + 2 * k, "class": "get", "status": st, "body_sha": shells.sha(body), "want_sha": hello_sha})
                 t, want = pool[3 + k % 3]
-                st, body = shells.http_request(srv.port, "POST", "/", t.encode("utf-8"), timeout=20)
+                st, body = shells.http_request(srv.port, "POST", "/", t.encode("utf-8"), timeout=90)
                 out.append({"client": cid, "seq": 3001 + 2 * k, "class": "post_ok", "status": st, "body_sha": shells.sha(body), "want_sha": want})
             return out
         with ThreadPoolExecutor(max_workers=4) as ex:
